@@ -110,6 +110,14 @@ def judge_text(sh, backend, top, what, src, case, mech_fn, extra_steps=None, ncy
   except OSError:
     pass
   sh.count("texts_translated")
+  ys_table = None
+  if backend == "ys":
+    # ( taken before the design is locked into a simulator, which replaces the port objects by their values )
+    try:
+      from pymtl3.passes.backends.yosys.util.utility import gen_mapped_ports
+      ys_table = {(e[1], int(e[2].get_dtype().get_length()), e[2].get_direction()) for e in gen_mapped_ports(top, {})}
+    except Exception as e_:
+      sh.count("yosys_port_table_raised:" + type(e_).__name__)
   if sh.counters["texts_translated"] % 2 == 0:
     # every text the pass emits for the design has to be right, also the one of a SECOND translation of the same elaborated object
     # (a translator that changes the design's own data - constants, parameter lists - while it works shows there): judge that one
@@ -139,6 +147,17 @@ def judge_text(sh, backend, top, what, src, case, mech_fn, extra_steps=None, ncy
     W("yosys-text-is-not-plain-verilog(typedef/member access)", text=text[-1500:])
   if cs.map_problems:
     W("flat-port-map-mismatch" if backend == "ys" else "port-map-mismatch", problems=cs.map_problems[:5], text=text[:1500]); return False
+  if backend == "ys":
+    # the back end's OWN flat port map (the table its import pass pairs python leaves and flattened ports with) names exactly the
+    # ports of the emitted module, with their widths and directions
+    import re as _re
+    want = ys_table
+    m_ = _re.search(r"module\s+%s\s*\((.*?)\);" % _re.escape(topmod), text, _re.S)
+    if want is not None and m_:
+      got = {(nm_, int(msb or 0) + 1, d_) for d_, msb, nm_ in _re.findall(r"(input|output)\s+(?:logic|wire|reg)?\s*(?:\[(\d+):0\])?\s*(\w+)", m_.group(1))}
+      sh.count("yosys_port_tables_compared"); sh.count("yosys_port_table_entries", len(want))
+      if got != want:
+        W("yosys-port-table-differs-from-the-emitted-module", only_in_table=sorted(want - got)[:6], only_in_module=sorted(got - want)[:6]); return False
   for pp in cs.pm.ports:
     if not isinstance(pp["shape"], int): sh.count("struct_leaf_ports_mapped", len(pp["sv"]))
     if "[" in pp["name"]: sh.count("array_element_ports_mapped")
@@ -366,7 +385,9 @@ def gen_constuse_design(rng):
   L += [f"    d = CUP({va}, {vb})", f"    s.q = InPort(CUQ); s.o5 = OutPort({B})", "    @update", "    def up():"]
   # a struct-typed temporary whose field is read ( t = s.q; .. t.y .. )
   stt = rng.choice([["s.o5 @= s.q.y"], ["t = s.q", "s.o5 @= t.y"], ["t = s.q", f"s.o5 @= t.y + {rng.randrange(1, 1 << B)}"]])
-  body = [f"s.o1 @= {K}[s.i]", f"s.o2 @= sext({K}, {W2}) + s.a", f"s.o3 @= sext({K}[s.i], {W2}) ^ s.a", "s.w @= d", "s.o4 @= s.w"]
+  # ( the extended constant may itself be an operand of a CONSTANT sub-expression, which the translator may fold )
+  cx = rng.choice([f"sext({K}, {W2})", f"(sext({K}, {W2}) << 1)", f"(sext({K}, {W2}) | 1)", f"(zext({K}, {W2}) + 1)", f"(sext({K}, {W2}) >> 1)", f"(sext({K}, {W2}) + sext({K}, {W2}))"])
+  body = [f"s.o1 @= {K}[s.i]", f"s.o2 @= {cx} + s.a", f"s.o3 @= sext({K}[s.i], {W2}) ^ s.a", "s.w @= d", "s.o4 @= s.w"]
   keep = [b for b in body[:3] if rng.random() < 0.7] or body[:1]
   keep += body[3:] if rng.random() < 0.6 else ["s.w @= 0", "s.o4 @= s.w"]
   for nm_, dflt in (("o1", "0"), ("o2", "s.a"), ("o3", "s.a")):
@@ -538,6 +559,39 @@ def consttbl_stream(sh, backend, n, mech_fn):
     directed(sh, backend, f"consttbl-{case}", src, "CTTop", mech_fn)
     if sh.counters.get("rejected_by_translator", 0) > before: sh.count("constant_table_designs_refused"); sh.count("consttbl_refused:" + how)
     else: sh.count("constant_table_designs_cosimulated"); sh.count("consttbl:" + how)
+
+
+def gen_liststruct_design(rng):
+  """struct ports three levels deep: a struct with a LIST field whose elements are structs (and a 2-D list of Bits beside it), as
+  input and output port, single and in a port array, the leaves connected / computed one by one"""
+  n = rng.randrange(2, 4); wr, wg = rng.choice([(5, 5), (3, 8), (1, 4)])
+  arr = rng.random() < 0.4
+  L = ["from pymtl3 import *", "@bitstruct", "class LSPix:", f"  r: mk_bits({wr})", f"  g: mk_bits({wg})",
+       "@bitstruct", "class LSLine:", f"  px: [LSPix] * {n}", "  k: Bits4", f"  m: [[Bits2] * 2] * 2",
+       "class LSTop(Component):", "  def construct(s):"]
+  if arr: L.append("    s.in_ = [InPort(LSLine) for _ in range(2)]; s.out = [OutPort(LSLine) for _ in range(2)]")
+  else: L.append("    s.in_ = InPort(LSLine); s.out = OutPort(LSLine)")
+  L.append(f"    s.sum = OutPort({max(wr, wg) + 2})")
+  i_ = "s.in_[1]" if arr else "s.in_"; o_ = "s.out[1]" if arr else "s.out"
+  if arr: L.append("    s.out[0] //= s.in_[0]")
+  how = rng.choice(["connect-whole", "block-whole", "block-leaves"])
+  if how == "connect-whole": L.append(f"    {o_} //= {i_}")
+  elif how == "block-whole": L += ["    @update", "    def up_copy():", f"      {o_} @= {i_}"]
+  else:
+    L += ["    @update", "    def up_copy():"] + [f"      {o_}.px[{j}].r @= {i_}.px[{n - 1 - j}].r" for j in range(n)] + [f"      {o_}.px[{j}].g @= {i_}.px[{j}].g" for j in range(n)] + \
+         [f"      {o_}.k @= {i_}.k + 1"] + [f"      {o_}.m[{a}][{b}] @= {i_}.m[{b}][{a}]" for a in range(2) for b in range(2)]
+  L += ["    @update", "    def up_sum():", f"      s.sum @= zext({i_}.px[0].r, {max(wr, wg) + 2}) + zext({i_}.px[{n - 1}].g, {max(wr, wg) + 2})"]
+  return "\n".join(L) + "\n", how + (":array" if arr else "")
+
+
+def liststruct_stream(sh, backend, n, mech_fn):
+  for case in range(n):
+    rng = sh.rng("liststruct", case)
+    src, how = gen_liststruct_design(rng)
+    before = sh.counters.get("rejected_by_translator", 0)
+    directed(sh, backend, f"liststruct-{case}", src, "LSTop", mech_fn)
+    if sh.counters.get("rejected_by_translator", 0) > before: sh.count("list_of_struct_port_designs_refused")
+    else: sh.count("list_of_struct_port_designs_cosimulated"); sh.count("liststruct:" + how)
 
 
 def localname_stream(sh, backend, n, mech_fn):
